@@ -78,22 +78,40 @@ func ruleBranchBoundaries(c *Ctx, rule string) {
 			continue
 		}
 		okLoop := false
+		why := "no loop over the chain of compilers found"
 		ast.Inspect(fd.Body, func(n ast.Node) bool {
 			fs, ok := n.(*ast.ForStmt)
 			if !ok || fs.Cond == nil {
 				return true
 			}
-			stops := false
+			// a conjunct o.Func == nil in the loop condition leaves the loop before the function's own scope is searched
+			skipsFunc := false
 			for _, a := range andAtoms(fs.Cond) {
 				if b, ok := a.(*ast.BinaryExpr); ok && b.Op == token.EQL && identOf(b.Y) != nil && identOf(b.Y).Name == "nil" {
 					if _, ok := fieldSel(info, b.X, "Func"); ok {
-						stops = true
+						skipsFunc = true
 					}
 				}
 			}
-			// upn += o.UpCost after the search of this level; jumpOut(upn, ...) inside
-			var addPos, jumpPos token.Pos
+			// in the body: the search of this level (jumpOut(upn, ...)), then `if o.Func != nil { break }`, then upn += o.UpCost
+			var addPos, jumpPos, stopPos token.Pos
 			usesUpn := false
+			for _, st := range fs.Body.List {
+				if ifs, ok := st.(*ast.IfStmt); ok && ifs.Else == nil && stopPos == 0 {
+					if b, ok := unparen(ifs.Cond).(*ast.BinaryExpr); ok && b.Op == token.NEQ && identOf(b.Y) != nil && identOf(b.Y).Name == "nil" {
+						if _, ok := fieldSel(info, b.X, "Func"); ok && len(ifs.Body.List) > 0 {
+							switch l := ifs.Body.List[len(ifs.Body.List)-1].(type) {
+							case *ast.BranchStmt:
+								if l.Tok == token.BREAK && l.Label == nil {
+									stopPos = ifs.Pos()
+								}
+							case *ast.ReturnStmt:
+								stopPos = ifs.Pos()
+							}
+						}
+					}
+				}
+			}
 			ast.Inspect(fs.Body, func(m ast.Node) bool {
 				switch x := m.(type) {
 				case *ast.AssignStmt:
@@ -112,12 +130,31 @@ func ruleBranchBoundaries(c *Ctx, rule string) {
 				}
 				return true
 			})
-			if stops && addPos != 0 && jumpPos != 0 && jumpPos < addPos && usesUpn {
+			if addPos == 0 || jumpPos == 0 {
+				return true
+			}
+			switch {
+			case skipsFunc && fk == "fast.Comp.Continue" && jumpPos < addPos && usesUpn:
+				// a continue target always lives in a compiler scope of its own (clause continue-owner below),
+				// never in the function's: leaving the loop before the function scope loses nothing
+				okLoop = true
+			case skipsFunc:
+				why = "the loop condition o.Func == nil ends the search before the function's own scope is examined: a label or a select statement directly in a function body is not found"
+			case stopPos == 0:
+				why = "nothing stops the search at the enclosing function (if o.Func != nil { break } after the search of each level)"
+			case !(jumpPos < stopPos && stopPos < addPos):
+				why = "the order in the loop body is not: search this level, stop at the function, count the frames of this level"
+			case !usesUpn:
+				why = "the frame count is not passed to jumpOut"
+			default:
 				okLoop = true
 			}
 			return true
 		})
-		c.Ob(rule, fk, fd, okLoop, "the search for the jump target stops at the enclosing function (o.Func == nil in the loop condition), counts the frames to leave with upn += o.UpCost after each level, and passes that count to jumpOut")
+		if okLoop {
+			why = ""
+		}
+		c.Ob(rule, fk, fd, okLoop, "the search for the jump target examines every scope up to and including the enclosing function's own, stops there (if o.Func != nil { break } after the search of a level), counts the frames to leave with upn += o.UpCost after each level, and passes that count to jumpOut"+sep(why))
 	}
 }
 
@@ -368,4 +405,64 @@ func ruleStmtCoverage(c *Ctx, fkey, iface, rule string) {
 	if n < 15 {
 		c.Ob(rule, fkey, fd, false, "fewer than 15 node types found: anchor missing")
 	}
+}
+
+// ruleContinueOwner: every LoopInfo with a Continue target is installed in a compiler scope created for that
+// statement (c re-bound from pushEnvIfFlag / pushEnvIfLocalBinds earlier in the same function), so that the
+// search of Comp.Continue may stop before the function's own scope.
+func ruleContinueOwner(c *Ctx, rule string) {
+	pk := c.P.Pkg("fast")
+	info := pk.TypesInfo
+	n := 0
+	for _, fd := range c.P.FuncsOf("fast") {
+		if fd.Body == nil {
+			continue
+		}
+		ast.Inspect(fd.Body, func(nd ast.Node) bool {
+			cl, ok := nd.(*ast.CompositeLit)
+			if !ok || !isNamedType(info.TypeOf(cl), "fast", "LoopInfo") {
+				return true
+			}
+			has := false
+			for _, el := range cl.Elts {
+				if kv, ok := el.(*ast.KeyValueExpr); ok && identOf(kv.Key) != nil && identOf(kv.Key).Name == "Continue" {
+					has = true
+				}
+			}
+			if !has {
+				return true
+			}
+			n++
+			pushed := false
+			ast.Inspect(fd.Body, func(m ast.Node) bool {
+				as, ok := m.(*ast.AssignStmt)
+				if !ok || as.Pos() > cl.Pos() || len(as.Rhs) != 1 || as.Tok != token.ASSIGN {
+					return true
+				}
+				call, ok := unparen(as.Rhs[0]).(*ast.CallExpr)
+				if !ok {
+					return true
+				}
+				switch funcFullName(calleeOf(info, call)) {
+				case "fast.Comp.pushEnvIfFlag", "fast.Comp.pushEnvIfLocalBinds", "fast.Comp.pushEnvIfDefine":
+					if id := identOf(as.Lhs[0]); id != nil && fd.Recv != nil && len(fd.Recv.List) == 1 && len(fd.Recv.List[0].Names) == 1 && info.Uses[id] == info.Defs[fd.Recv.List[0].Names[0]] {
+						pushed = true
+					}
+				}
+				return true
+			})
+			c.Ob(rule, funcKey(pk, fd)+"/LoopInfo", cl, pushed, "a loop with a continue target is compiled in a scope of its own (the receiver is re-bound to the result of pushEnvIf... before the LoopInfo is installed)")
+			return true
+		})
+	}
+	if n == 0 {
+		c.Ob(rule, "fast/LoopInfo", nil, false, "no LoopInfo literal with a Continue target found: anchor missing")
+	}
+}
+
+func sep(s string) string {
+	if s == "" {
+		return ""
+	}
+	return ": " + s
 }
